@@ -34,6 +34,21 @@ def x_obligations(tier):
         for entry in ("string", "get_with"):
             o.append(Obl(f"C04-apply-unordered[{base}?{qpre}{KEYS[a]}{'&' + KEYS[b] if b is not None else ''},{entry},len<={n}]", M, "apply2" if b is not None else "apply1",
                          env=dict(envv, VF_ENTRY=entry), timeout=T, family="C04-apply", bound=f"base {base}, query {qpre!r} + symbolic values (len <= {n}) for keys given in non-template order"))
+    # a forced type that is not the first of its same-keyed family: an overlay that several types fit keeps the Sid's own type
+    if tier == "quick":
+        for base, ki in [("a__g:h/a/x/v1/*", 4), ("a__g:h/a/x/v1/*", 6), ("s__c:h/s/q1/v1/*", 3)]:
+            for entry in ("string", "get_with"):
+                o.append(Obl(f"C04-apply1[{base},{KEYS[ki]},{entry},len<=2]", M, "apply1", env={"VF_BASE": base, "VF_KI": str(ki), "VF_N": "2", "VF_ENTRY": entry}, timeout=T, family="C04-apply",
+                             bound=f"base {base} (forced, non-first type), key {KEYS[ki]}, every value of 1..2 characters"))
+    # the query syntax's own variants: '?' as pair separator, leading / trailing '?' or '&'
+    syn = [("h/a/x", 4, 6, "?", "", ""), ("h/s/q1/v1", 4, 7, "?", "?", ""), ("h/a/x", 4, None, "&", "?", ""), ("h/*/*", 2, None, "&", "&", "?"), ("h/s/q1/v1", 6, None, "&", "", "&")]
+    for base, a, b, sep, lead, trail in syn:
+        envv = {"VF_BASE": base, "VF_KI": str(a), "VF_N": "1" if b is not None else "2", "VF_SEP": sep, "VF_QLEAD": lead, "VF_QTRAIL": trail}
+        if b is not None:
+            envv["VF_KI2"] = str(b)
+        for entry in ("string", "get_with"):
+            o.append(Obl(f"C04-apply-syntax[{base},{lead}{KEYS[a]}{sep + KEYS[b] if b is not None else ''}{trail},{entry}]", M, "apply2" if b is not None else "apply1", env=dict(envv, VF_ENTRY=entry), timeout=T,
+                         family="C04-apply", bound=f"base {base}, query {lead!r} + pairs joined by {sep!r} + {trail!r}, symbolic values"))
     for base in bases[:3]:
         for ki in (2, 4, 7):
             o.append(Obl(f"C04-anyvalue[{base},{KEYS[ki]}]", M, "blank", env={"VF_BASE": base, "VF_KI": str(ki), "VF_N": "1" if tier == "quick" else "2"}, timeout=T, family="C04-total",
